@@ -1,9 +1,11 @@
 #!/bin/bash
 # Parallel version of run_corpus.sh: every change is applied to its own scratch worktree of /repo (HEAD) under
 # /tmp/corpus, checked there (GOVC_REPO; evidence and replays redirected), and the worktree removed. /repo is not touched.
-# usage: run_corpus_par.sh [jobs]   -> prints the same lines as run_corpus.sh, sorted
+# usage: run_corpus_par.sh [jobs] [substring]   -> prints the same lines as run_corpus.sh, sorted; only changes whose label
+# contains the substring when one is given
 cd /verif
 J=${1:-5}
+PAT=${2:-}
 mkdir -p /tmp/corpus
 one() { # patch prop label
   patch=$1; prop=$2; label=$3
@@ -22,5 +24,5 @@ export -f one
 {
   for m in selftest/mutants/C*.patch; do echo "$(realpath $m) $(basename $m | cut -c1-3) mutants/$(basename $m)"; done
   for d in seeded/*/; do [ -f "$d/patch.diff" ] && echo "$(realpath $d/patch.diff) $(python3 -c "import json;print(json.load(open('$d/meta.json'))['property'])") $(basename $d)/patch.diff"; done
-} | xargs -P $J -L 1 bash -c 'one "$0" "$1" "$2"' | sort -k3,3
+} | grep -- "$PAT" | xargs -P $J -L 1 bash -c 'one "$0" "$1" "$2"' | sort -k3,3
 git -C /repo worktree prune
